@@ -155,27 +155,51 @@ type Sim struct {
 	schedHash  uint64
 	traceHash  uint64
 
-	opsLive atomic.Int64
-	stepCtr *atomic.Int64 // watchdog progress counter (process-global)
-	failed  []string
+	// OnStep, if set, runs on the controller at every quiescent point.
+	OnStep func(step int64)
+
+	nets []*SimNet
+	// MaxSteps bounds the controller steps of one run; exceeding it is
+	// reported as a livelock/storm instead of running (and allocating) forever.
+	MaxSteps int64
+	overrun  bool
+	abort    *atomic.Bool // set by the real-time watchdog when the run takes too long
+	opsLive  atomic.Int64
+	stepCtr  *atomic.Int64 // watchdog progress counter (process-global)
+	failed   []string
 }
 
 // NewSim must be called inside the bubble.
+// SetAbortFlag installs the watchdog's wall-budget flag.
+func (s *Sim) SetAbortFlag(f *atomic.Bool) { s.abort = f }
+
 func NewSim(ch *Chooser, stepCtr *atomic.Int64) *Sim {
 	s := &Sim{
-		Ch:      ch,
-		start:   time.Now(),
-		wakeCtl: make(chan struct{}, 1),
-		gate:    make(chan struct{}),
-		Probes:  map[string]int{},
-		Faults:  map[string]int{},
-		stepCtr: stepCtr,
-		ctlGoid: runtime.VerifGoid(),
-		KeepLog: true,
+		Ch:       ch,
+		start:    time.Now(),
+		wakeCtl:  make(chan struct{}, 1),
+		gate:     make(chan struct{}),
+		Probes:   map[string]int{},
+		Faults:   map[string]int{},
+		stepCtr:  stepCtr,
+		ctlGoid:  runtime.VerifGoid(),
+		KeepLog:  true,
+		MaxSteps: 400_000,
 	}
 	verifhook.H = s
 
 	return s
+}
+
+// Net returns a handle that can close every socket created in this run.
+func (s *Sim) Net() *netCloser { return &netCloser{s} }
+
+type netCloser struct{ s *Sim }
+
+func (n *netCloser) CloseAll() {
+	for _, sn := range n.s.nets {
+		sn.CloseAll()
+	}
 }
 
 // Detach uninstalls the hooks (end of run).
@@ -197,7 +221,7 @@ func (s *Sim) Record(kind, ep, info string, data []byte) uint64 {
 	h.Write([]byte(ep))
 	h.Write([]byte(info))
 	s.traceHash = h.Sum64()
-	if s.KeepLog {
+	if s.KeepLog && len(s.Log) < 50_000 {
 		s.Log = append(s.Log, Event{Seq: s.evseq, At: s.Now(), Kind: kind, Ep: ep, Info: info, Data: data})
 	}
 
@@ -393,8 +417,34 @@ func (s *Sim) run(done func() bool, horizon time.Duration, stopOnFail bool) bool
 		if s.stepCtr != nil {
 			s.stepCtr.Add(1)
 		}
+		if s.abort != nil && s.abort.Load() && !s.overrun {
+			s.overrun = true
+			s.mu.Lock()
+			s.failed = append(s.failed, fmt.Sprintf("run exceeded its wall-clock budget after %d controller steps at virtual t=%v: livelock, storm or super-linear slowdown", s.Steps, s.Now()))
+			s.mu.Unlock()
+		}
+		if s.overrun && stopOnFail {
+			return false
+		}
+		limit := s.MaxSteps
+		if !stopOnFail {
+			limit += 200_000 // teardown gets a further allowance
+		}
+		if s.MaxSteps > 0 && s.Steps > limit {
+			if !s.overrun {
+				s.overrun = true
+				s.mu.Lock()
+				s.failed = append(s.failed, fmt.Sprintf("step budget of %d controller steps exhausted at virtual t=%v: livelock or retransmission storm", s.MaxSteps, s.Now()))
+				s.mu.Unlock()
+			}
+
+			return false
+		}
 		if s.releaseOneParked() {
 			continue
+		}
+		if s.OnStep != nil {
+			s.OnStep(s.Steps)
 		}
 		s.mu.Lock()
 		bad := len(s.Panics) > 0 || len(s.failed) > 0
@@ -446,6 +496,9 @@ func (s *Sim) Settle() {
 		}
 	}
 }
+
+// Overrun reports whether the step budget was exhausted.
+func (s *Sim) Overrun() bool { return s.overrun }
 
 // OpsLive reports the number of harness goroutines still running.
 func (s *Sim) OpsLive() int64 { return s.opsLive.Load() }
